@@ -123,7 +123,7 @@ class Crop(LinearOperator):
         # output and input shapes resulting from applying the pad operator to the
         # input shape of this operator.
         tmp = pad(snp.zeros(input_shape, dtype=input_dtype))
-        output_shape = tuple(2 * snp.array(input_shape) - snp.array(tmp.shape))
+        output_shape = tuple(2 * n - m for n, m in zip(input_shape, tmp.shape))
         pad_adjoint = linear_adjoint(pad, snp.zeros(output_shape, dtype=input_dtype))
         super().__init__(
             input_shape=input_shape,
